@@ -18,6 +18,20 @@ CHECKS = {
              "bounded input domain and checks equality of all argument buffers and of all configuration fields outside the reported modset.",
         note="Trusted: TLC, the projection harness/export.py (no semantics), value mode F (field Z_32749, Schwartz-Zippel), "
              "bounded inputs (sizes 1..3 +- literals, strided windows), corpus and candidate grid as enumerated."),
+    "C02": dict(level=TV, design="6/C02",
+        technique="TLA+ trace validation (ExoCTrace mode of ExoMachine): executions of the real compiled C are checked by TLC against the LoopIR machine",
+        text="Every corpus procedure (as written and after randomly chosen accepted schedules) is compiled by the real backend, built with "
+             "gcc + ASan/UBSan and run on each admissible input of the bounded domain (dense and offset/stride-2 windows, negative "
+             "index arguments, all config fields); each execution's complete final state is one trace event that TLC accepts only if "
+             "it equals the final state of spec/ExoMachine.tla (mode Z) on the same procedure and input.",
+        note="Trusted: gcc 12, the C driver generator harness/cdrv.py, TLC, exact small-integer data (mode Z); host-realisable memories only."),
+    "C04": dict(level=MC, design="6/C04",
+        technique="TLA+ static predicate ExoProgram!WellScoped + safety traps of the ExoMachine small-step semantics, model-checked by TLC on derived procedures",
+        text="For every accepted derivation edge TLC evaluates WellScoped on the derived procedure (every use in scope of exactly one binder) "
+             "and runs it on every admissible bounded input: no out-of-bounds access, violated callee assertion, non-positive size, shape "
+             "mismatch, aliased call arguments, negative trip count or unbound symbol where the source is safe, and no uninitialised "
+             "value where the source produced a defined one.",
+        note="Trusted: TLC, projection, bounded inputs; sources that are themselves ill-scoped (chains) are excluded from the claim."),
 }
 
 NOT_YET = {}
